@@ -39,13 +39,13 @@ def register(reg):
              "((self.subdomain + '.' + self.server_name) if (domain_part is None and self.subdomain is not None and len(self.subdomain) > 0) "
              " else ((domain_part + '.' + self.server_name) if (domain_part is not None and len(domain_part) > 0) else self.server_name))")
     reg.contract(
-        "werkzeug/routing/map.py:MapAdapter.get_host", prop=P, self_model=Ad, replay="method", params={"domain_part": "Optional[str]"},
+        "werkzeug/routing/map.py:MapAdapter.get_host", modifies=[], prop=P, self_model=Ad, replay="method", params={"domain_part": "Optional[str]"},
         returns="str", ensures=["result == host_of(self, domain_part)"],
     )
     reg.spec("redirect_path(script, path_info)",
              "('/' + script.strip('/') + '/' + path_info.lstrip('/')) if len(script.strip('/')) > 0 else ('/' + path_info.lstrip('/'))")
     reg.contract(
-        "werkzeug/routing/map.py:MapAdapter.make_redirect_url", prop=P, self_model=Ad, replay="method",
+        "werkzeug/routing/map.py:MapAdapter.make_redirect_url", modifies=[], prop=P, self_model=Ad, replay="method",
         params={"path_info": "str", "query_args": "Optional[str]", "domain_part": "Optional[str]"}, returns="str",
         assumes=["len(self.server_name) > 0", "domain_part is None or len(domain_part) > 0"],
         ensures=[
